@@ -18,7 +18,7 @@ From FB.Base Require Import PyVal Fs.
 From FB.Gen Require Import JsonUtilGen.
 From FB.Spec Require Import Prog.
 From FB.Model Require Import Types Monad Builder Persist Build Run Frame.
-From FB.Proofs Require Import FrameLaws RollbackFaultsLaws RollbackFaultsMain.
+From FB.Proofs Require Import FrameLaws RollbackFaultsLaws RollbackFaultsMain RollbackFaults2Main.
 From FB.Proofs Require CacheGenLaws.   (* T1g: the model routines are equal to the translation of the source (Gen/CacheGen.v) *)
 Import ListNotations.
 
@@ -46,6 +46,24 @@ Theorem C14_rollback_under_faults : forall cf nm vers svers root w w' e (P : pat
     ((forall n, In n (w_faults w) -> n < w_effects wx) ->
      forall p f, lookup (w_fs w') p = Some (NFile f) <-> lookup (w_fs w) p = Some (NFile f)).
 Proof. exact rollback_restores_files_faults. Qed.
+
+(* ... and no directory is lost (that no directory made by the failed build remains is FALSE under
+   faults that hit the clean-up rmdir: RollbackFaults2Dirs.v has the computed worlds; rmdir/remove/replace
+   are not among the calls the property speaks of - "create directories, move files aside, write the cache") *)
+Theorem C14_rollback_keeps_directories_under_faults : forall cf nm vers svers root w w' e (P : path -> Prop),
+  sanitize vers = Some svers ->
+  AllTargets P root ->
+  fs_wf (w_fs w) ->
+  (forall p f, lookup (w_fs w) p = Some (NFile f) -> path_ok p = true) ->
+  (forall a t, (P t \/ t = cf \/ In t (cache_targets (old_cache_of (w_fs w) cf nm svers))) ->
+     below a t = true -> (forall f, lookup (w_fs w) a <> Some (NFile f)) /\ ~ P a) ->
+  (forall d, In d (c_dirs (old_cache_of (w_fs w) cf nm svers)) -> path_ok d = true) ->
+  run_build cf nm vers root w = (w', Done (inr e)) ->
+  exists ccd wx,
+    undo_entry cf nm svers (fun w0 => run root None [] w0) w (old_cache_of (w_fs w) cf nm svers) = Some (ccd, wx) /\
+    ((forall n, In n (w_faults w) -> n < w_effects wx) ->
+     forall d, isdir (w_fs w) d = true -> isdir (w_fs w') d = true).
+Proof. exact rollback_keeps_dirs_faults. Qed.
 
 (* whatever faults are injected, foreign files are intact after the build *)
 Theorem C14_foreign_files_intact_under_faults : forall faults cf nm vers svers root w w' r (P : path -> Prop),
